@@ -444,6 +444,11 @@ func (s *State) enterLoop(l *Loop) {
 		}
 	}
 	for g := range mods.ghost {
+		if g == "$mutexes" {
+			// the body locks / unlocks: the lock state at the head of a later iteration is whatever the body leaves
+			s.ghost[g] = Val{T: tBool, Terms: []string{s.fresh("loop:locks", arrSort(sInt, sBool))}}
+			continue
+		}
 		if tt, decl := s.eng.ghostDecls[g]; decl {
 			t := env.resolveTypeIn(tt, s.eng.ghostPkg[g])
 			s.ghostGet(g, t)
@@ -2024,7 +2029,13 @@ func (s *State) evalSteps(lf *loopFrame, exit bool, results map[string]Val) {
 	env.iter = lf.Head
 	env.pre = lf.Pre
 	env.lp = l
+	captured := env.vars // variables captured by a closure stay reachable through their address
 	env.vars = map[string]Val{"$exit": mkBool(fmt.Sprint(exit)), "$returned": mkBool(fmt.Sprint(results != nil)), "$entered": mkBool(fmt.Sprint(entered))}
+	for k, v := range captured {
+		if strings.HasPrefix(k, "&") {
+			env.vars[k] = v
+		}
+	}
 	if results == nil {
 		// not returning: result names are bound to zero values (clauses guard them with $returned)
 		sig := s.fn.Signature
